@@ -464,6 +464,16 @@ def build_items(tier):
         fired = pairs
     for na, nb in fired:
         items.append(("fired", na, nb, {"bound": 1, "cap": 1500 if tier == "quick" else 20000}))
+    # the same instant, with a backend that really suspends in every call: the other session's command is dispatched
+    # while this session's handler is still on its way (a restart offset, a rename source, ... travel with the handler)
+    slow_fired = [("download-rest", "cwd"), ("rest-pending", "cwd"), ("download-rest", "rest-pending"),
+                  ("rest-pending", "download-rest"), ("download-rest", "rename"), ("rest-pending", "upload"),
+                  ("appe", "rest-pending"), ("rename", "download-rest")]
+    if tier != "quick":
+        slow_fired = [(x, y) for x in NAMES for y in NAMES if "rest" in x or "rest" in y]
+    for na, nb in slow_fired:
+        items.append(("fired", na, nb, {"bound": 1, "cap": 1500 if tier == "quick" else 6000, "backend": "slow",
+                                        "delay": 0.125}))
     # per-connection limits of one account are per session: a big transfer takes as long next to another one as alone
     # (measured on downloads, whose pace is the server's alone: 150 mark to completion reply)
     for na, nb in (("big-download", "big-download"), ("big-download", "big-upload"), ("big-download", "big-abort"),
